@@ -171,6 +171,15 @@ CHECKS['C19'] = dict(
     design_ref='DESIGN.md 4/C19',
     note='Trusted: MIR = code; virtual file system; std builtins; the Python reference definitions. Outside: out-of-range indices (undocumented), longer lists/strings, parse_int without leading digits, schema shapes beyond the listed pairs.',
     technique='symbolic execution of rustc MIR (FileBuilder::build with the real standard library) over symbolic element values; z3 decides result == reference per path; replay with the real binary via out json (bounded: lengths, strings)')
+CHECKS['C20'] = dict(
+    category='model_checking',
+    text='Kernel-level check of the language server; the JSON-RPC loop (lsp_server, channels, threads, serde) cannot be encoded and is exercised only by native replay. From MIR (ucglib plus the lsp-types crate\'s own MIR for its structs, Default impls and '
+         'constants): (1) analysis::analyze on 30 document texts (valid, type errors, syntax/token errors, empty, CRLF, non-ASCII, multi-line strings): no panic, a syntax diagnostic exactly when the real parser rejects and at its position, no diagnostics on a text the real '
+         'FileBuilder::build accepts, ranges inside the document; (2) find_hover, find_definition, collect_completions, token_at, token_prefix_at, cursor_in_string with symbolic (line, character) over all of u32 x u32: z3 decides reachability of every panic site and every '
+         'answered range must lie inside the document; (3) encode_semantic_tokens delta decoding stays inside each line; (4) ServerState::update_document over 44/92 open/change sequences on 1..2 documents equals a fresh state on the final text.',
+    design_ref='DESIGN.md 4/C20',
+    note='Trusted: MIR = code; url::Url as an opaque string; std builtins. Outside: the message loop itself (malformed/unknown messages, interleavings, liveness beyond the replayed sessions), workspace symbols, didClose, documents importing each other while edited.',
+    technique='symbolic execution of rustc MIR (analysis and request kernels) with symbolic cursor positions over u32 x u32; z3 decides reachability of every panic site; replay against the real `ucg lsp` over stdio (bounded: documents, sessions)')
 NOT_APPLICABLE = {
 }
 ALL = ['C%02d' % i for i in range(1, 21)]
